@@ -6,6 +6,7 @@ import (
 	"strings"
 
 	"github.com/antlr4-go/antlr/v4"
+	"github.com/nyaruka/gocommon/urns"
 	cqlgen "github.com/nyaruka/goflow/antlr/gen/contactql"
 	"github.com/nyaruka/goflow/assets"
 	"github.com/nyaruka/goflow/assets/static"
@@ -325,6 +326,77 @@ func runC14(c *Ctx) {
 		}
 		if i < 2 {
 			c.Sample(map[string]any{"check": "M2", "built": dumpNode(built), "printed": printed})
+		}
+	}
+
+	// ---- K: the parser model against the generated parser (real lexer tokens -> simplified tree) -----------------
+	{
+		attrs := []string{"uuid", "id", "name", "status", "language", "urn", "group", "flow", "history", "tickets", "created_on", "last_seen_on"}
+		props := []string{"name", "Name", "NAME", "age", "fields.age", "gender", "fields.gender", "tel", "urns.tel", "urn", "language", "id", "uuid", "status", "group", "created_on",
+			"last_seen_on", "tickets", "dob", "state", "nick_name", "twitter", "urns.whatsapp", "flow", "nope", "FIELDS.Gender", "foo.bar", "urns.x.y", "fields.a.b", "mailto", "_x", "x1"}
+		var schemes []string
+		for _, pn := range props {
+			if l := strings.ToLower(pn); !strings.Contains(l, ".") && urns.IsValidScheme(l) {
+				schemes = append(schemes, hx(l))
+			}
+		}
+		var ah []string
+		for _, a := range attrs {
+			ah = append(ah, hx(a))
+		}
+		sl := "[]"
+		if len(schemes) > 0 {
+			sl = strings.Join(schemes, ",")
+		}
+		var gen func(depth int) string
+		gen = func(depth int) string {
+			cond := func() string {
+				lit := Pick(r, []string{"bob", "10", "3.5", "x.y", "+123-456", "it's", "\"M\"", "\"x y\"", "\"\"", "\"a\\\"b\"", "Bob", "15", "eng", "\"OR\"", "\") OR (\""})
+				op := Pick(r, []string{"=", "!=", "~", ">", "<", ">=", "<=", "has", "is", "HAS", "Is", " = "})
+				sp := Pick(r, []string{" ", "", "  "})
+				if op[0] >= 'A' || op[0] == ' ' {
+					sp = " " // a comparator spelled in letters needs its spaces, or it is part of a word
+				}
+				return Pick(r, props) + sp + op + sp + lit
+			}
+			if depth == 0 || r.Chance(30) {
+				return cond()
+			}
+			a, b := gen(depth-1), gen(depth-1)
+			switch r.Intn(10) {
+			case 0, 1:
+				return a + " AND " + b
+			case 2, 3:
+				return a + " OR " + b
+			case 4, 5:
+				return a + " " + b // juxtaposition is an implicit AND, below AND and above OR
+			case 6:
+				return "(" + a + ")"
+			case 7:
+				return "(" + a + " " + Pick(r, []string{"and", "Or", "AND", "OR", ""}) + " " + b + ")"
+			case 8:
+				return a + " and (" + b + ")"
+			default:
+				return Pick(r, []string{a + " AND", "(" + a, a + ")", a + " OR OR " + b, "AND " + a, a + " = " + b, "()", a + " (" + b + ")"})
+			}
+		}
+		envPlain := envs.NewBuilder().Build()
+		for i := 0; i < c.N(3000, 150000); i++ {
+			text := gen(r.Range(0, 4))
+			var q *contactql.ContactQuery
+			var err error
+			if c.Guard("K-qparse", "panic:ParseQuery", map[string]any{"text": text}, func() { q, err = contactql.ParseQuery(envPlain, text, nil) }) {
+				continue
+			}
+			exp := "err"
+			if err == nil {
+				exp = encNodeOrNil(q.Root())
+			} else if qe, ok := err.(*contactql.QueryError); ok && qe.Code() != contactql.ErrSyntax && qe.Code() != contactql.ErrUnknownPropertyType {
+				c.Count("K-qparse-skipped-validation-error") // operators against property types are checked after parsing (C15's part)
+				continue
+			}
+			toks := strings.TrimPrefix(cqlLex(text), "toks")
+			c.Model("qparse", "qparse "+strings.Join(ah, ",")+" "+sl+toks, exp, text)
 		}
 	}
 
